@@ -695,6 +695,38 @@ func VerifVotesOf(vs *types.VoteSet) []*types.Vote {
 	return out
 }
 
+// VerifVotesFor lists the votes in the set's tally for one block id, including votes that conflict with the
+// validator's first vote and were taken under a peer's +2/3 claim.
+func VerifVotesFor(vs *types.VoteSet, id types.BlockID) []*types.Vote {
+	if vs == nil {
+		return nil
+	}
+	var out []*types.Vote
+	for _, e := range types.VerifC02Dump(vs).ByBlock {
+		if e.Key != id.Key() {
+			continue
+		}
+		for _, v := range e.Votes {
+			if v != nil {
+				out = append(out, v)
+			}
+		}
+	}
+	return out
+}
+
+// SetPeerMaj23 records a peer's +2/3 claim the way ConsensusManager.Receive does for a VoteSetMaj23Message.
+func (n *VerifNode) SetPeerMaj23(round uint32, t kproto.SignedMsgType, peer string, id types.BlockID) error {
+	cs := n.CS
+	cs.mtx.Lock()
+	votes := cs.Votes
+	cs.mtx.Unlock()
+	if votes == nil {
+		return nil
+	}
+	return votes.SetPeerMaj23(round, t, p2p.ID(peer), id)
+}
+
 // Constructors for consensus messages (the types are exported already; kept for symmetry).
 func VerifVoteMsg(v *types.Vote) Message         { return &VoteMessage{Vote: v} }
 func VerifProposalMsg(p *types.Proposal) Message { return &ProposalMessage{Proposal: p} }
